@@ -18,7 +18,10 @@ fn main() {
             let seed: u64 = args.get(4).and_then(|s| s.parse().ok()).unwrap_or(1);
             let mut out: Vec<String> = Vec::new();
             match prop.as_str() {
-                "C01" => gen_instr::gen(&[gen_instr::Class::Data, gen_instr::Class::Lea, gen_instr::Class::Os], tier, seed, 6, 40, &mut out),
+                "C01" => {
+                    gen_instr::gen(&[gen_instr::Class::Data, gen_instr::Class::Lea, gen_instr::Class::Os], tier, seed, 6, 40, &mut out);
+                    gen_prog::gen_patched_code(tier, seed ^ 0x101, &mut out);
+                }
                 "C02" => gen_instr::gen(&[gen_instr::Class::Data, gen_instr::Class::Lea, gen_instr::Class::Stack, gen_instr::Class::CallRet, gen_instr::Class::Branch], tier, seed ^ 0x202, 5, 40, &mut out),
                 "C03" => {
                     gen_instr::gen(&[gen_instr::Class::Branch, gen_instr::Class::CallRet], tier, seed, 30, 300, &mut out);
@@ -53,6 +56,7 @@ fn main() {
                     gen_mem::gen_c10(tier, seed, &mut out);
                     // the heap is an area like the others: brk histories (growing, shrinking, failing) with the area list observed
                     gen_prog::gen_c13(tier, seed ^ 0x1013, &mut out);
+                    gen_elf::gen_layout_cases(tier, seed ^ 0x1015, &mut out);
                 }
                 "C11" => gen_prog::gen_c11(tier, seed, &mut out),
                 "C12" => gen_prog::gen_c12(tier, seed, &mut out),
